@@ -206,6 +206,24 @@ def _call_impl(m, cfg: dict, *, min_iter, tol, offset) -> dict:
     if cfg.get('tracer') is not None:
         kw['trace'] = cfg['tracer']
     out: Dict[str, Any] = {}
+    if cfg.get('trace_prelude') is not None:
+        # HISTORY: an earlier traced solve of ANOTHER period, with another selection of variables, that fails (so the
+        # post-solution hook never runs); nothing of it may carry over into the call under test
+        L = cfg['L']
+        other = ((cfg['t'] if cfg['t'] >= 0 else cfg['t'] + L) + 1) % L
+        psc = Script(cfg['N'], 1, with_z=cfg['with_z'])
+        psc.v[1] = [123.0] * cfg['N']
+        st = m._script_state()
+        st['scripts'][other] = psc
+        pk: Dict[str, Any] = dict(max_iter=1, tol=-1.0, failures='ignore', errors='ignore')
+        if cfg.get('tracer') is not None:
+            pk['trace'] = cfg['trace_prelude'] if cfg['tracer'] is not False else False
+        with warnings.catch_warnings():
+            warnings.simplefilter('ignore')
+            m.solve_t(other, **pk)
+        st['log'].clear()
+        st['tlog'].clear()
+        st['snaps'].clear()
     try:
         with warnings.catch_warnings():
             warnings.simplefilter('ignore')
